@@ -43,17 +43,21 @@ CLAIMED["C14"] = (
     "DESIGN.md section 2, C14",
 )
 CLAIMED["C09"] = (
-    "typestate (Synced/MaybeLazy) + taint classification of block-value uses, context-sensitive through the FermionicArray MRO",
+    "typestate (Synced/MaybeLazy) + taint classification of block-value uses, context-sensitive through the FermionicArray MRO; candidates "
+    "cross-examined by abstract evaluation of lazy/synchronised twins over shaped tokens",
     "Static must-sync analysis over all paths from every public entry point with a FermionicArray operand: block values of a "
     "possibly-lazy array are only used by sign-equivariant (key-preserving linear), sign-even, or phase-aware constructs, or "
     "after phase_sync on that array; every re-keying of blocks is mirrored on the sign table; signs are consumed exactly once, "
-    "by phase_sync only. Found and fixed two genuine defect groups (eigh/solve; reductions/unary maps/item/expm). A bounded "
-    "complement by abstract evaluation (R09.5): every non-factorising operation of the C01 battery gives the same observable result on "
-    "a fermionic token array with pending signs and on its phase_sync()-ed twin (~3000 twin evaluations).",
+    "by phase_sync only. Found and fixed two genuine defect groups (eigh/solve; reductions/unary maps/item/expm). BOUNDED CLAIM "
+    "(R09.5, abstract evaluation): every non-factorising operation — the C01 battery, reductions, elementwise maps, in-place arithmetic, "
+    "the interface wrappers, square-matrix operations, and two-step programs whose pending signs arise in the middle — gives the same "
+    "observable result on a fermionic token array with pending signs and on its phase_sync()-ed twin (~25000 twin evaluations, quick). "
+    "A typestate finding is a candidate: it is dropped (as a note) only when every entry point it derives from was evaluated with pending "
+    "signs through that very statement and the twins agree; otherwise it is reported.",
     "Trusts the declared linear-algebra facts (QR/SVD commute with a sign on the left factor; abs is sign even; conj/transpose/"
     "reshape/slicing/scalar multiplication are linear) whose structural side conditions are checked, and numpydoc parameter types. "
-    "Does not decide numerical equality itself.",
-    "DESIGN.md section 2, C09",
+    "A refuted candidate is vouched for by the enumerated family only. Does not decide numerical equality itself.",
+    "DESIGN.md section 2 (C09), sections 16 and 21",
 )
 
 CLAIMED["C15"] = (
@@ -186,11 +190,15 @@ CLAIMED["C19"] = (
     "DESIGN.md sections 2 and 18, C19",
 )
 CLAIMED["C04"] = (
-    "exhaustive abstract evaluation of the label comparison over order types; path rule (exchange => sign) on the phased sort; "
+    "exhaustive abstract evaluation of the label comparison over order types and of the label merge on small label lists; path rule "
+    "(exchange => sign) on the phased sort; "
     "must-pass-through rule for resolve_combined_oddpos; abstract interpretation of two- and three-tensor networks along different routes "
     "(signed monomials)",
     "Complete over its finite domain: FermionicOperator.__lt__/__eq__ are a strict total order for every totally ordered label type (all "
-    "13 order types of three labels x 8 direction assignments); labels are used only through comparisons. All paths: on every branch "
+    "13 order types of three labels x 8 direction assignments); labels are used only through comparisons. R04.8 (evaluation): "
+    "resolve_combined_oddpos on every small pair of label lists leaves the sorted pair-free merge, takes the global sign iff the exchange "
+    "parity + ket-then-bra pairs + cross-over is odd, and refuses a repeated label; R04.2: oddpos_dag reverses and conjugates. All paths "
+    "(R04.3, when the sort is the adjacent-compare loop it reads; otherwise a note and R04.8 decides): on every branch "
     "path of the phased sort an exchange costs exactly one sign, a conjugate pair costs a sign iff ket-then-bra, duplicates raise, the "
     "cross-over sign has the documented condition, the phase reaches the array only through phase_global, and every fermionic "
     "contraction result passes through the label resolution before it is returned. Bounded (R04.5-R04.7, ~650 operand pairs and ~130 "
